@@ -720,42 +720,39 @@ def _dualquat(run):
     for key, want_, nm_ in (('DualQuaternion:DualQuaternion.conj', 'DualQuaternion(SELF.real.conj(), SELF.dual.conj())', 'conj'),
                             ('DualQuaternion:DualQuaternion.vec', 'r_[SELF.real.vec, SELF.dual.vec]', 'vec')):
         check_expr_fn(run, key, nm_, want_)
-    # norm: (sqrt(a.s), sqrt(b.s)) with a = real*conj(real), b = real*conj(dual) + dual*conj(real)
+    # norm: the dual-number square root of a + eps b with a = real*conj(real), b = real*conj(dual) + dual*conj(real):
+    #        (sqrt(a.s), b.s / (2 sqrt(a.s)))      -- evaluated on the return with every local in place, whatever the locals are called
     cn = Ctx(run, 'DualQuaternion:DualQuaternion.norm')
-    vals = {}
-    for n in own_walk(cn.f.node):
-        if isinstance(n, ast.Assign) and isinstance(n.targets[0], ast.Name):
-            vals[n.targets[0].id] = n.value
     nmn = Normaliser(rename={cn.f.selfname: 'S'}, noncomm=True)
     wa = Normaliser(noncomm=True).poly(parse_expr('S.real * S.real.conj()'))
     wb = Normaliser(noncomm=True).poly(parse_expr('S.real * S.dual.conj() + S.dual * S.real.conj()'))
-    got = [nmn.poly(canon(cn.fi, v, inline=False)) for v in vals.values()]
-    if wa in got and wb in got:
-        run.holds(RULE, cn.f.key, 'norm terms', 'a = q conj(q), b = q conj(d) + d conj(q)', f=cn.f)
-    else:
-        run.violation(RULE, cn.f.key, 'norm terms', 'dual-quaternion norm terms are %s; the definition requires %s and %s'
-                      % ('; '.join(str(g) for g in got), wa, wb), f=cn.f)
-    # the norm is the dual-number square root of a + eps b:  sqrt(a) + eps b / (2 sqrt(a))
-    r = _single_return_value(cn)
-    if r is None:
+    rets = sl_eval(cn)
+    if len(rets) != 1:
         run.error('R16: DualQuaternion.norm: expected a single return')
     else:
-        e = canon(cn.fi, r.value, inline=False)
-        nmr = Normaliser()
-        if isinstance(e, ast.Tuple) and len(e.elts) == 2:
-            re_ok = nmr.poly(e.elts[0]) == nmr.poly(parse_expr('sqrt(a.s)'))
-            du = nmr.poly(e.elts[1])
-            du_ok = du == nmr.poly(parse_expr('b.s / (2 * sqrt(a.s))'))
-            (run.holds if re_ok else run.violation)(RULE, cn.f.key, 'norm: real part', 'sqrt(a)' if re_ok else 'real part of the norm is %s, not sqrt(a.s)' % src(e.elts[0], 30), f=cn.f, node=r)
-            if du_ok:
-                run.holds(RULE, cn.f.key, 'norm: dual part', 'b / (2 sqrt(a)): dual-number square root', f=cn.f, node=r)
-            elif du == nmr.poly(parse_expr('sqrt(b.s)')):
+        r, e = rets[0]
+        if not (isinstance(e, ast.Tuple) and len(e.elts) == 2):
+            run.error('R16: DualQuaternion.norm does not return a 2-tuple')
+        else:
+            ba = matches('sqrt(_A.s)', e.elts[0])
+            a_ok = ba is not None and nmn.poly(ba['_A']) == wa
+            (run.holds if a_ok else run.violation)(RULE, cn.f.key, 'norm: real part', 'sqrt of the scalar part of q conj(q)' if a_ok else
+                                                   'the real part of the norm is %s, not sqrt((real * real.conj()).s)' % src(e.elts[0], 50), f=cn.f, node=r)
+            bd = matches('_B.s / (2 * sqrt(_A.s))', e.elts[1])
+            bs = matches('sqrt(_B.s)', e.elts[1])
+            if bd is not None:
+                b_ok = nmn.poly(bd['_B']) == wb and nmn.poly(bd['_A']) == wa
+                if b_ok:
+                    run.holds(RULE, cn.f.key, 'norm terms', 'a = q conj(q), b = q conj(d) + d conj(q)', f=cn.f)
+                    run.holds(RULE, cn.f.key, 'norm: dual part', 'b / (2 sqrt(a)): dual-number square root', f=cn.f, node=r)
+                else:
+                    run.violation(RULE, cn.f.key, 'norm terms', 'dual-quaternion norm terms are %s and %s; the definition requires %s and %s'
+                                  % (nmn.poly(bd['_A']), nmn.poly(bd['_B']), wa, wb), f=cn.f)
+            elif bs is not None:
                 run.violation(RULE, cn.f.key, 'norm: dual part', 'the dual part is sqrt(b); the square root of the dual number a + eps b is sqrt(a) + eps b/(2 sqrt(a)). '
                               'For a unit dual quaternion b is 0 up to rounding, so sqrt(b) raises a math domain error whenever the rounding error is negative', f=cn.f, node=r)
             else:
                 run.error('R16: DualQuaternion.norm: dual part %s has an unrecognised form' % src(e.elts[1], 40))
-        else:
-            run.error('R16: DualQuaternion.norm does not return a 2-tuple')
 
 
 # --------------------------------------------------------------------------- routing (R15 / R13)
@@ -1573,20 +1570,30 @@ def tables_c19(run):
         w = Normaliser().poly(parse_expr('SELF.pp.reshape((3, 1)) + SELF.uw.reshape((3, 1)) * lam'))
         w2 = Normaliser().poly(parse_expr('SELF.pp.reshape((3, 1)) + SELF.uw.reshape((3, 1)) * P0'))
         (run.holds if g in (w, w2) else run.violation)(RULE, cx.f.key, 'point(lam)', 'pp + uw * lam' if g in (w, w2) else 'point is %s, not pp + uw*lam' % g, f=cx.f, node=r)
-    # closest: lam = (x - pp) . uw ; p = point(lam) ; d = |x - p|
+    # closest: lam = (x - pp) . uw ; p = point(lam) ; d = |x - p|   -- read from the returned named tuple with every local in place
     cc = Ctx(run, 'geom3d:Plucker.closest')
-    vals = {}
-    for st in own_walk(cc.f.node):
-        if isinstance(st, ast.Assign) and isinstance(st.targets[0], ast.Name):
-            vals[st.targets[0].id] = st.value
+    rets = sl_eval(cc)
     nmc = Normaliser(rename=cc.rename)
-    for nm_, want in (('lam', 'dot(P0 - SELF.pp, SELF.uw)'), ('p', 'SELF.point(lam).flatten()'), ('d', 'norm(P0 - p)')):
-        if nm_ not in vals:
-            run.error('R16: Plucker.closest: no assignment to %s' % nm_)
-            continue
-        g = nmc.poly(canon(cc.fi, vals[nm_], inline=False))
-        w = Normaliser().poly(parse_expr(want))
-        (run.holds if g == w else run.violation)(RULE, cc.f.key, 'closest ' + nm_, want if g == w else '%s is %s; the definition is %s' % (nm_, g, w), f=cc.f)
+    if len(rets) != 1:
+        run.error('R16: Plucker.closest: expected a single return')
+    else:
+        r, e = rets[0]
+        fields = None
+        if isinstance(e, ast.Call) and isinstance(e.func, ast.Call) and len(e.func.args) == 2 and isinstance(e.func.args[1], ast.Constant) and isinstance(e.func.args[1].value, str):
+            names_ = e.func.args[1].value.replace(',', ' ').split()
+            vals_ = dict(zip(names_, e.args))
+            vals_.update({k.arg: k.value for k in e.keywords if k.arg})
+            fields = vals_
+        if not fields or not {'p', 'd', 'lam'} <= set(fields):
+            run.error('R16: Plucker.closest: return is not a named tuple with the fields p, d, lam: %s' % src(r.value, 50))
+        else:
+            LAM = 'dot(P0 - SELF.pp, SELF.uw)'
+            P = 'SELF.point(%s).flatten()' % LAM
+            for nm_, want, desc in (('lam', LAM, 'dot(x - pp, uw)'), ('p', P, 'point(lam)'), ('d', 'norm(P0 - %s)' % P, 'norm(x - p)')):
+                g = nmc.poly(fields[nm_])
+                w = Normaliser().poly(parse_expr(want))
+                (run.holds if g == w else run.violation)(RULE, cc.f.key, 'closest ' + nm_, desc if g == w else
+                                                         'the field %s is %s; the definition is %s = %s' % (nm_, g, desc, w), f=cc.f, node=r)
     # plane convention n.x + d = 0 : writer PN, readers contains / intersect_plane / Planes
     cp = Ctx(run, 'geom3d:Plane.PN')
     r = _single_return_value(cp)
